@@ -835,7 +835,7 @@ def build_cases(ctx):
     return cases
 
 N_EX_QUICK, N_EX_THOROUGH = 20, 400
-N_THEOREMS = 59
+N_THEOREMS = 61
 
 RULE = ("one evaluation = one (body, driver history) pair run on goja and on the Lean model (plus one per mechanism dump); "
         "distinct & non-trivial = distinct (mode, body, history) whose trace contains at least one suspension followed by a further command")
